@@ -48,7 +48,8 @@ def main():
             if args.tier == "thorough" and proof.ok:
                 # the toolchain's independent re-checker replays the compiled declarations through the kernel
                 lcm = list(getattr(mod, "LEANCHECKER_MODULES", ())) or (["FsProofs.%s" % prop] + list(getattr(mod, "EXTRA_PROOF_MODULES", ())))
-                rc, out = vlib._run(["lake", "env", "leanchecker"] + lcm, cwd=vlib.LEAN)
+                with vlib.BuildLock():
+                    rc, out = vlib._run(["lake", "env", "leanchecker"] + lcm, cwd=vlib.LEAN)
                 rep.extra["leanchecker"] = {"rc": rc, "modules": lcm, "tail": out[-300:]}
                 if rc != 0:
                     proof.bad.append(("leanchecker", out[-400:]))
